@@ -26,6 +26,11 @@ pub struct Ledger {
     next: u64,
 }
 static LEDGER: Mutex<Option<Ledger>> = Mutex::new(None);
+thread_local! { static CREATED: std::cell::RefCell<Vec<u64>> = const { std::cell::RefCell::new(Vec::new()) }; }
+/// Ids of the tracked values created by the calling thread since the last call.
+pub fn take_created() -> Vec<u64> {
+    CREATED.with(|c| std::mem::take(&mut *c.borrow_mut()))
+}
 
 pub fn reset() {
     *LEDGER.lock().unwrap_or_else(|e| e.into_inner()) = Some(Ledger::default());
@@ -51,6 +56,7 @@ impl Tracked {
             l.items.insert(id, Item { label, state: LState::Live, pinned: 0, created_seq: seq, created_thread: th, dropped_seq: 0, dropped_thread: 0 });
             id
         });
+        CREATED.with(|c| c.borrow_mut().push(id));
         Tracked { id }
     }
 }
